@@ -1,7 +1,7 @@
 (* T1 obligations for C19: side conditions of the text theorems, re-checked on the facts
    regenerated from /repo's source on every run. *)
 From Coq Require Import ZArith List Bool.
-From Verif Require Import Extracted.Extracted Common.Bytes Text.Model Text.Corr.
+From Verif Require Import Extracted.Extracted Common.Bytes Text.Model Text.Proofs Text.Corr.
 Import ListNotations.
 Local Open Scope Z_scope.
 
@@ -37,3 +37,20 @@ Lemma ob_highlight_defaults :
   (XText.default_fragment_size =? 200) && (0 <? XText.default_fragment_size) &&
   beqb XText.html_before [60;109;97;114;107;62] && beqb XText.html_after [60;47;109;97;114;107;62] = true.
 Proof. vm_compute. reflexivity. Qed.
+
+(* reverse_total for the variant the T1 fact selects (Corr.reverse_sel is what the token-by-token
+   comparison of the reverse filter uses): total when the tree has the repaired code, refuted
+   when it has the code as found.  Both are stated conditionally so that the file builds on
+   either tree; ob_reverse_variant_known says one of the two premises holds. *)
+Lemma ob_reverse_selected_total :
+  XText.reverse_variant = 2 -> forall marks s, Corr.reverse_sel marks s <> None.
+Proof.
+  intros H marks s. unfold Corr.reverse_sel. rewrite H. cbn.
+  destruct (reverse_fixed_total (pred_of Corr.ascii_mark marks) s) as (o & E & _). rewrite E. discriminate.
+Qed.
+
+Lemma ob_reverse_selected_refuted :
+  XText.reverse_variant = 1 -> forall marks, Corr.reverse_sel marks [195; 195] = None.
+Proof.
+  intros H marks. unfold Corr.reverse_sel. rewrite H. cbn. apply reverse_refuted.
+Qed.
